@@ -554,13 +554,14 @@ class Powertrain:
                     ).take(0)
 
             if isinstance(element, MotorBase):
-                interpolation_function = interp1d(
-                    x=[instant.to('sec').value for instant in self.time],
-                    y=element.time_variables['pwm']
-                )
-                data.loc[element.name, 'pwm'] = interpolation_function(
-                    target_time.to('sec').value
-                ).take(0)
+                if 'pwm' in variables:
+                    interpolation_function = interp1d(
+                        x=[instant.to('sec').value for instant in self.time],
+                        y=element.time_variables['pwm']
+                    )
+                    data.loc[element.name, 'pwm'] = interpolation_function(
+                        target_time.to('sec').value
+                    ).take(0)
 
                 if 'electric current' in variables:
                     if element.electric_current_is_computable:
